@@ -116,11 +116,11 @@ var props = map[string]propCfg{
 	"C01": {Focus: "C01", Arms: []string{"garbage"}, Probes: []string{"c01_liveness_probe"}, Wall: 20},
 	"C02": {Focus: "C02", Arms: []string{"clean", "codec", "garbage"}, Probes: []string{"c02_fresh_compared", "content_checked"}},
 	"C03": {Focus: "C03", Arms: []string{"clean", "faults"}, Probes: []string{"c03_checked", "c03_notimp", "c03_refused", "c03_servfail"}},
-	"C04": {Focus: "C04", Arms: []string{"clean", "late", "prefetch"}, Rare: []string{"exhaust"}, RareEvery: 1500, Probes: []string{"content_checked", "cache_hit_last_quarter"}},
+	"C04": {Focus: "C04", Arms: []string{"clean", "late", "prefetch", "cache"}, Rare: []string{"exhaust"}, RareEvery: 1500, Probes: []string{"content_checked", "cache_hit_last_quarter"}},
 	"C05": {Focus: "C05", Arms: []string{"clean"}, Rare: []string{"exhaust"}, RareEvery: 1000, Probes: []string{"c05_reply_checked", "c05_wireid_checked", "c05_exhaust_completed", "c05_exhaust_rollover_seen"}},
 	"C06": {Focus: "C06", Arms: []string{"clean"}, Probes: []string{"c06_query_checked", "c06_reply_checked"}},
 	"C14": {Focus: "C14", Arms: []string{"stale", "faults"}, Rare: []string{"exhaust"}, RareEvery: 1500, Probes: []string{"c14_deadline_checked", "c14_liveness_checked", "c14_waiter_on_dead_conn"}},
-	"C20": {Focus: "C20", Arms: []string{"router", "xport", "prefetch"}, Race: true, Probes: []string{"content_checked", "c06_reply_checked"}},
+	"C20": {Focus: "C20", Arms: []string{"router", "xport", "prefetch", "cache"}, Race: true, Probes: []string{"content_checked", "c06_reply_checked"}},
 	"C15": {Focus: "C15", Arms: []string{"unit", "e2e"}, Probes: []string{"c15_decisions_compared", "c15_e2e_refused", "c15_e2e_admitted"}},
 	"C16": {Focus: "C16", Arms: []string{"clean"}, Probes: []string{"c16_tc_seen", "c16_tcp_outcome_returned", "c16_no_tc"}},
 	"C07": {Focus: "C07", Arms: []string{"ample", "prefetch", "tiny", "redis"}, Probes: []string{"cache_hit", "c07_group_checked", "c07_compared_with_first_relay", "c07_hit_expected"}},
@@ -200,7 +200,7 @@ func runChild(env []string, outFile string) *result {
 				line = line[:j]
 			}
 			d := "the proxy logged that the bytes its memory cache returned for a lookup did not decode (stored response not returned intact): " + line
-			r.Violations = append(r.Violations, violation{Property: "C07", Clause: "cache-entry-corrupt", Detail: d}, violation{Property: "C20", Clause: "cache-entry-read-while-released", Detail: d})
+			r.Violations = append(r.Violations, violation{Property: "C07", Clause: "cache-entry-corrupt", Detail: d}, violation{Property: "C20", Clause: "cache-entry-read-while-released", Detail: d}, violation{Property: "C04", Clause: "cache-returned-foreign-bytes", Detail: d})
 		}
 		return r
 	}
